@@ -116,6 +116,12 @@ type UnitGen struct {
 	loopFrames  int
 	newNames    map[string]bool
 	pure        int
+	topBlock    *ssa.BasicBlock
+	topFrame    *Frame
+	entryEnd    int
+	ghostLocals map[string]Val
+	defs        map[string]string // defined name -> definition text
+	patSafe     map[string]bool
 	selfForCall *Val
 	keyType     map[string]types.Type
 	mapKeyType  map[string]types.Type
@@ -163,7 +169,7 @@ func (u *UnitGen) havoc(base string, so Sort) Term {
 func (u *UnitGen) nilMapFact(t Term) {
 	s := string(t.Sort)
 	if strings.HasPrefix(s, "(Array Int (Array ") && strings.HasSuffix(s, " Bool))") {
-		u.assumeRaw(Eq(Select(t, IntN(0)), ConstArray(elemSort(t.Sort), TFalse)))
+		u.assumeStructural(Eq(Select(t, IntN(0)), ConstArray(elemSort(t.Sort), TFalse)))
 	}
 }
 
@@ -177,6 +183,10 @@ func (u *UnitGen) define(base string, t Term) Term {
 	}
 	n := u.freshName(base)
 	u.emit(Event{Kind: EvDefine, Name: n, Sort: t.Sort, Term: t})
+	if u.defs == nil {
+		u.defs = map[string]string{}
+	}
+	u.defs[n] = t.S
 	return Term{n, t.Sort}
 }
 
@@ -194,6 +204,15 @@ func (u *UnitGen) assumeRaw(t Term) {
 	u.emit(Event{Kind: EvAssume, Term: t})
 }
 
+// assumeStructural records a fact about typing, allocation or an axiom instance. Such facts hold
+// independently of the program path and are kept when a modular loop drops earlier assumptions.
+func (u *UnitGen) assumeStructural(t Term) {
+	if t.S == "true" {
+		return
+	}
+	u.emit(Event{Kind: EvAssume, Term: t, Structural: true})
+}
+
 // oblige records a proof obligation: reach => goal.
 func (u *UnitGen) oblige(st *State, kind, name, clause string, goal Term) *Obligation {
 	if u.dry > 0 {
@@ -206,6 +225,13 @@ func (u *UnitGen) oblige(st *State, kind, name, clause string, goal Term) *Oblig
 		ob.Backend = "syntactic"
 	}
 	ob.Index = len(u.events)
+	if u.topFrame != nil && u.topBlock != nil {
+		for _, li := range u.topFrame.loops {
+			if li.cutIndex > 0 && li.header.Dominates(u.topBlock) && li.cutIndex > ob.ModularFrom {
+				ob.ModularFrom = li.cutIndex
+			}
+		}
+	}
 	u.emit(Event{Kind: EvOblig, Ob: ob})
 	u.obs = append(u.obs, ob)
 	return ob
@@ -434,6 +460,37 @@ func (u *UnitGen) heapAxiom(st *State, key string, arr Term) {
 	if !u.quantified || u.pure > 0 {
 		return
 	}
+	if strings.HasPrefix(key, "MD:") {
+		// keys present in a map are values of its key type
+		kt, ok := u.mapKeyType[key]
+		if !ok {
+			return
+		}
+		b, isB := kt.Underlying().(*types.Basic)
+		if !isB || b.Info()&types.IsInteger == 0 {
+			return
+		}
+		if u.axiomDone == nil {
+			u.axiomDone = map[string]bool{}
+		}
+		if u.axiomDone[arr.S] || strings.Contains(arr.S, " ") {
+			return
+		}
+		u.axiomDone[arr.S] = true
+		if !u.patternSafe(arr.S) {
+			pfx := mangle(key)
+			for _, tok := range strings.FieldsFunc(u.defs[arr.S], func(r rune) bool { return r == ' ' || r == '(' || r == ')' }) {
+				if strings.HasPrefix(tok, pfx) && tok != arr.S {
+					u.heapAxiom(st, key, Term{tok, arr.Sort})
+				}
+			}
+			return
+		}
+		kv := Term{"hx_k", SInt}
+		sel := fmt.Sprintf("(select (select %s hx_r) hx_k)", arr.S)
+		u.assumeStructural(Term{fmt.Sprintf("(forall ((hx_r Int) (hx_k Int)) (! (=> %s %s) :pattern (%s)))", sel, u.typeFacts(st, kv, kt).S, sel), SBool})
+		return
+	}
 	ty, ok := u.keyType[key]
 	if !ok {
 		return
@@ -445,6 +502,16 @@ func (u *UnitGen) heapAxiom(st *State, key string, arr Term) {
 		return
 	}
 	u.axiomDone[arr.S] = true
+	if !u.patternSafe(arr.S) {
+		// a merged version (ite of arrays): state the axiom for the versions it is built from
+		pfx := mangle(key)
+		for _, tok := range strings.FieldsFunc(u.defs[arr.S], func(r rune) bool { return r == ' ' || r == '(' || r == ')' }) {
+			if strings.HasPrefix(tok, pfx) && tok != arr.S {
+				u.heapAxiom(st, key, Term{tok, arr.Sort})
+			}
+		}
+		return
+	}
 	if strings.HasPrefix(key, "MV:") {
 		ks := keySort(elemSort(arr.Sort))
 		el := Term{fmt.Sprintf("(select (select %s hx_r) hx_k)", arr.S), elemSort(elemSort(arr.Sort))}
@@ -452,7 +519,7 @@ func (u *UnitGen) heapAxiom(st *State, key string, arr Term) {
 		if f.S == "true" {
 			return
 		}
-		u.assumeRaw(Term{fmt.Sprintf("(forall ((hx_r Int) (hx_k %s)) (! %s :pattern (%s)))", ks, f.S, el.S), SBool})
+		u.assumeStructural(Term{fmt.Sprintf("(forall ((hx_r Int) (hx_k %s)) (! %s :pattern (%s)))", ks, f.S, el.S), SBool})
 		return
 	}
 	if !strings.HasPrefix(key, "H:") && !strings.HasPrefix(key, "C:") {
@@ -463,7 +530,7 @@ func (u *UnitGen) heapAxiom(st *State, key string, arr Term) {
 	if f.S == "true" {
 		return
 	}
-	u.assumeRaw(Term{fmt.Sprintf("(forall ((hx_r Int)) (! %s :pattern (%s)))", f.S, el.S), SBool})
+	u.assumeStructural(Term{fmt.Sprintf("(forall ((hx_r Int)) (! %s :pattern (%s)))", f.S, el.S), SBool})
 }
 
 func (u *UnitGen) mapKeys(mt types.Type) (dk, vk string, ds, vs Sort) {
@@ -503,7 +570,7 @@ func (u *UnitGen) alloc(st *State, base string) Term {
 
 // assumeType emits the facts every value of Go type t satisfies.
 func (u *UnitGen) assumeType(st *State, v Term, t types.Type) {
-	u.assume(st, u.typeFacts(st, v, t))
+	u.assumeStructural(Implies(st.reach, u.typeFacts(st, v, t)))
 }
 
 func (u *UnitGen) typeFacts(st *State, v Term, t types.Type) Term {
